@@ -353,6 +353,15 @@ class BuiltinMixin:
         return Py('range', args)
 
     def bi_sorted(self, args, kwargs, node):
+        v = args[0] if args else None
+        if v is not None and isinstance(v.t, TList) and v.t.elem is TInt:
+            # sorted(list of numbers): over-approximated by some list of the same length (which element is where is
+            # left open: sound for whatever is proved about the result)
+            from . import lists as L
+            r = fresh(v.t, 'sorted')
+            self.assume_wf(r)
+            self.assume(L.l_len(v.t, r.z) == L.l_len(v.t, v.z))
+            return r
         raise Unsupported('sorted')
 
     def bi_open(self, args, kwargs, node):
@@ -462,9 +471,12 @@ class BuiltinMixin:
                 if ci is not None and ci < 0:
                     idx = n + ci
                     self.need(n >= -ci, 'IndexError')
-                else:
-                    self.nonneg_or_unsupported(idx, 'pop index')
+                elif self.entails(idx >= 0):
                     self.need(idx < n, 'IndexError')
+                else:
+                    # a possibly negative position counts from the end (exact Python semantics)
+                    idx = z3.If(idx < 0, n + idx, idx)
+                    self.need(z3.And(idx >= 0, idx < n), 'IndexError')
             else:
                 self.need(n > 0, 'IndexError')
                 idx = n - 1
